@@ -234,6 +234,18 @@ Definition livePeriods (widen : bool) (loopMS : Z) (c : tcfg) (nowMS tsbdMS : Z)
   | _ => Ok (ps, None)
   end.
 
+(** With a stop time (stop_/stoprel_): LiveMPD generates the MPD for [endTimeMS], which is the
+    stop time once it has passed ([stopTimeMS < nowMS]); the wrap times, the single-period timeline
+    and the split are those of that instant (the MPD is then made static AFTER the split). *)
+Definition liveEndMS (nowMS : Z) (stopS : option Z) : Z :=
+  match stopS with
+  | Some s => if s * 1000 <? nowMS then s * 1000 else nowMS
+  | None => nowMS
+  end.
+Definition livePeriodsStop (widen : bool) (loopMS : Z) (c : tcfg) (nowMS : Z) (stopS : option Z) (tsbdMS : Z)
+           (pph segDurMS : Z) (mode : mpdType) (cont : bool) (ases : list asIn) : res (list period * option Z) :=
+  livePeriods widen loopMS c (liveEndMS nowMS stopS) tsbdMS pph segDurMS mode cont ases.
+
 (** ** Specification side *)
 
 (** Expansion of an <S> list as [reduceS] walks it, starting with running time [t]. *)
